@@ -41,7 +41,11 @@ META = {
              "cuqi.model.Model without jacobian; Gaussian prior given by sqrtprec, which offers no gradient), n = 3, 8, 16, 32: concave "
              "quadratic log-posterior with constructed exact maximiser (Stationary: gradient exactly 0; Curvature: A^T A - I/4 "
              "diagonally dominant, Hessian >= (pe/4 + px) I); the returned MAP / ML point must have spec gradient <= 1e-4 (10 x the "
-             "documented gtol of the default solver) and lie within sqrt(n) 1e-4 / lambda_min of the maximiser."),
+             "documented gtol of the default solver) and lie within sqrt(n) 1e-4 / lambda_min of the maximiser.  LinGaussVec.tla (round 10, EXTENDS LinGauss): "
+             "the linear-Gaussian configurations of part map with a function pair defined for VECTORS ONLY - forward x |-> B @ vecop(x), adjoint y |-> vecop*(B^T @ y) "
+             "with vecop = np.roll(x,1) / np.flip(x) / np.cumsum(x) (no axis: on a matrix numpy flattens) and B = A V^-1 in exact integers, so the operator and "
+             "the oracle (exact posterior mean / covariance / ML point for A) are unchanged; invariants VecOperatorIsA, VecAssembledIsG, VecDirectIsMean, named "
+             "deviation MatrixFromForwardOfIdentity (matrix read off ONE call forward(identity)) refuted; MAP / ML / direct draws replayed as for part map."),
     "note": ("Bounded sizes (n, m <= 3), integer/dyadic lattice; optimisation route judged by the optimality conditions with "
              "tolerances tied to scipy's gtol=1e-5 (gradient <= 1e-4, no larger neighbour at distance 1e-2..1e-3), so only local "
              "optimality is asserted for non-convex polynomial posteriors; results flagged unsuccessful by the solver info are "
